@@ -168,7 +168,7 @@ pub fn verify_rejects_tamper(M: usize, F: usize, A: usize) {
     core::mem::forget(r);
     let untouched = tok[..] == beforeb[..T];
     vcheck_all!(
-        (rejected, "[C02] a signed token with any single flipped bit, changed footer/assertion or another key is rejected"),
+        (rejected, "[C02][C12] a signed token with any single flipped bit, changed footer/assertion or another key is rejected"),
         (!rejected || kind_ok, "[C12] a signature failure is CryptoError, whatever the message bytes"),
         (untouched, "[C12] verification never modifies the payload"),
     );
